@@ -7,6 +7,12 @@ props = [json.loads(l) for l in open(os.path.join(ROOT, "properties.jsonl"))]
 E = "exploration"
 # id -> (category, technique, what the level gives, trusted base / assumptions)
 CHECKS = {
+ "C12": (E, "proptest + adversarial size families, each case on a 2 MiB-stack thread inside a child process (crash / abort / work oracle)",
+   "Grammar-aware and character-level mutations of query text, 22 adversarial families at sizes up to 20k (quick) / 1M (thorough), random and forged variables (upload markers), operation names, extensions, GET query strings, JSON bodies and batches, damaged multipart bodies and websocket frames against a schema using every built-in input type; a case must return, not panic, not abort (seen through the child's exit status and a marker file) and stay under a generous checking-work bound.",
+   "Stack budget 2 MiB (tokio worker default). 'No hang' is decided through the verif-hooks work counter and a parent watchdog (exit 2). Fragment fan-out is C11's subject."),
+ "C35": (E, "proptest over GET/POST requests through the five bundled integrations in-process (mutation log oracle)",
+   "100k generated requests per quick run (mutation documents, mixed documents selected by operationName, variables, five percent-encoding styles, single and batch extractors, multipart/mixed Accept) through axum, actix-web, poem, warp and rocket; after a GET selecting a mutation the resolver log must be unchanged and the answer must be an error; GET queries and POST mutations must keep working (non-vacuity).",
+   "Separate crate harness-web (binary vweb). A harness-side stub integration shows the oracle accepts a rejection. If a framework fails to build offline it is reported as not covered."),
  "C27": (E, "proptest over gate-opening schedules of a deterministic executor, per-event reference execution",
    "Subscriptions with one and two root fields, 0-3 events each, nullable failing sub-fields gated by the deterministic executor; every response must carry one root key and equal the reference execution of its own event, errors must belong to that event; streamed queries/mutations on Z must yield exactly one response equal to the reference.",
    "Two root fields are outside the specification; while C27-F1 is open they run only in a probe stream that checks the exact quirk (errors conserved but possibly attached to another root field's event)."),
@@ -103,7 +109,7 @@ for p in props:
 
 manifest = {
  "version": 1,
- "setup_cmd": "cd /verif/harness && CARGO_NET_OFFLINE=true cargo build --release --offline -p vcheck",
+ "setup_cmd": "cd /verif/harness && CARGO_NET_OFFLINE=true cargo build --release --offline -p vcheck && cd /verif/harness-web && CARGO_NET_OFFLINE=true cargo build --release --offline",
  "hooks": {
    "guard": "cargo feature `verif-hooks` on the async-graphql crate",
    "enable": "the harness depends on async-graphql by path (/repo); checks that need the work counter enable the feature `verif-hooks`; every ./check run rebuilds from the current tree",
@@ -114,6 +120,7 @@ manifest = {
  "engines": [
    {"name": "vcheck", "path": "/verif/harness", "serves_properties": [c["property_id"] for c in checks if c["engine"] == "vcheck"],
     "kind_free_text": "Rust binary: generators are interpreters over a u32 choice stream driven by proptest's TestRunner (fixed seed from VERIF_SEED, shrinking, replay files), bounded-exhaustive enumerators, a deterministic single-threaded executor for schedules, and reference oracles written from the GraphQL specification"},
+   {"name": "vcheck-web", "path": "/verif/harness-web", "serves_properties": ["C35"], "kind_free_text": "Rust binary vweb: the five web-framework integrations driven in-process on one tokio runtime; same vcore driver (proptest choice streams, evidence, known findings)"},
  ],
  "checks": checks,
  "not_applicable": na,
